@@ -23,7 +23,7 @@ TRUSTED = [
 ]
 ASSUMPTIONS = [
     "MA1: a generator of Memory.triples holds references to inner dicts; inner dicts are never replaced, so lookup by path in the current state is the same",
-    "MA2: Memory.remove runs over the live generator of Memory.triples; modelled as the list computed up front (a removed triple is never revisited, removing one triple does not change another's contexts)",
+    "MA2: Memory.remove and Graph.__isub__ run over a live generator of the store's triples(); modelled as the list computed up front (both stores snapshot the key lists / triple set they walk, a removed triple is never revisited, removing one triple does not change another's entry)",
     "MA3: Graph.add always passes quoted=False, so the per-triple context dict is modelled by its key list",
     "MA4: Graph.__iadd__/addN consume the other graph lazily; Memory snapshots its triple set, SimpleMemory adds never resize a dict that is being walked, so the list computed up front is the same",
     "terms are abstract identifiers with decidable equality; independence of the code from Python truthiness is established by the tie (falsy terms in every vocabulary), not by the theorems",
@@ -90,11 +90,9 @@ class Histories(Suite):
     imports = "From RV Require Import Store.Model."
     case_ty = "case"
     obs_ty = "obs"
-    kf = "kf"
-    kf_ids = {1: "F10b"}
     corr = ("SimpleMemory.add/remove/triples/__len__, Memory.add/remove/triples/__len__ and its context helpers, "
             "Graph.add/addN/remove/set/triples/__len__/__contains__/__iter__/__iadd__/__isub__/__add__/__sub__/__mul__/__xor__, Store.addN")
-    quick_n = 500
+    quick_n = 260   # one Coq shard; the Coq evaluation of the observations dominates the quick check
     thorough_n = 12000
     timeout_s = 20.0
 
@@ -136,7 +134,7 @@ class Histories(Suite):
         def rpat(t):
             return [x if rng.random() < 0.55 else None for x in t]
 
-        n = rng.choice([2, 3, 4, 5, 6, 8, 10, 12]) if i % 10 != 9 else rng.randint(15, 40)
+        n = rng.choice([2, 3, 4, 5, 6, 8, 10, 12]) if i % 12 != 11 else rng.randint(15, 40)
         ops = []
         for _ in range(n):
             r = rng.random()
@@ -156,8 +154,6 @@ class Histories(Suite):
                 op = ["set", g, t]
             elif r < 0.80:
                 h = pick() if rng.random() < 0.8 else g
-                if mode == "mixed" and g[0] == 1 and h[0] == 0:
-                    h = g    # keep dict orders of the SimpleMemory store independent of set order
                 op = ["iadd", g, h]
             elif r < 0.90:
                 h = pick() if rng.random() < 0.8 else g
@@ -313,8 +309,6 @@ class Iterators(Suite):
     model = "imodel_obs"
     oeq = "iobs_eqb"
     spec = "ispec_ok"
-    kf = "ikf"
-    kf_ids = {1: "F10"}
     corr = "Memory.triples as a generator (through Graph.triples) interleaved with Memory.add/remove (Graph.add/remove/set)"
     quick_n = 500
     thorough_n = 12000
